@@ -348,7 +348,7 @@ def split_addr(line_out, tmpl):
 
 
 class FileCfg:
-    def __init__(self, rng, cli_like=False):
+    def __init__(self, rng, cli_like=False, shape=None):
         self.salt = rng.choice(ipgen.SALTS)
         self.b4 = rng.choice([None, 0, 8, 8, 4, 16, 24])
         self.b6 = rng.choice([None, 0, 8, 8, 16, 32, 64])
@@ -357,6 +357,18 @@ class FileCfg:
         k = rng.random()
         self.nets = None if k < 0.4 else (list(ipgen.SPEC_RFC1918) if k < 0.55 else ([ipgen.rand_cidr(rng)] if k < 0.7 else (
             ipgen.same_addr_subnets(rng, self.prefixes) if k < 0.88 else ipgen.nested_cidrs(rng)[:3])))
+        if shape is not None:
+            shape %= 5
+            if shape == 0:
+                self.prefixes, self.nets = None, None
+            elif shape == 1:
+                self.prefixes, self.nets = None, list(ipgen.SPEC_RFC1918)
+            elif shape == 2:
+                self.prefixes = None
+                self.nets = ipgen.same_addr_subnets(rng, None)
+            elif shape == 3:
+                self.prefixes = ipgen.nested_cidrs(rng)
+                self.nets = ipgen.same_addr_subnets(rng, self.prefixes) if rng.random() < 0.6 else None
         if cli_like:
             self.b6 = self.b4 = (8 if self.b4 is None else min(self.b4, 32))
 
@@ -417,9 +429,9 @@ def file_scope(res, pid, rng, tier):
     with the cache-free spec (Lean), masks / preserved addresses with the text spec; undo by a fresh
     FileAnonymizer."""
     fails, dis = [], []
-    rounds = 14 if tier == "thorough" else 5
-    for _ in range(rounds):
-        fc = FileCfg(rng)
+    rounds = 15 if tier == "thorough" else 5
+    for rnd in range(rounds):
+        fc = FileCfg(rng, shape=rnd)
         try:
             fa = fc.build()
         except Exception as e:  # noqa
@@ -548,7 +560,7 @@ def file_scope(res, pid, rng, tier):
 
 # --------------------------------------------------------------------------- command line level
 
-def run_cli(argv, files, want_dump=False):
+def run_cli(argv, files, want_dump=False, stale_dump=None):
     """netconan.netconan.main in-process on a scratch directory; returns (status, outputs, dumptext)."""
     from netconan import netconan as nc
     d = tempfile.mkdtemp(prefix="ncverif_")
@@ -564,6 +576,9 @@ def run_cli(argv, files, want_dump=False):
         dump = os.path.join(d, "dump.txt")
         if want_dump:
             args += ["-d", dump]
+            if stale_dump is not None:      # a dump file left behind by an earlier run
+                with open(dump, "w") as f:
+                    f.write(stale_dump)
         lvl = logging.getLogger().level
         try:
             nc.main(args)
@@ -590,19 +605,30 @@ def cli_scope(res, pid, rng, tier):
     """The command line with documented defaults: -a [-s salt] [--preserve-...]; images compared with the
     spec under the *documented* defaults (8 host bits both families; class + private prefixes)."""
     fails, dis = [], []
-    rounds = 6 if tier == "thorough" else 3
+    rounds = 8 if tier == "thorough" else 4
+    stale = None
     for r in range(rounds):
         fc = FileCfg(rng, cli_like=True)
-        if r == 0:
+        shape = r % 4
+        # the option shapes are cycled deterministically; details are random
+        if shape == 0:      # everything by default
             fc.prefixes, fc.nets, fc.b4, fc.b6 = None, None, 8, 8
+        elif shape == 1:    # --preserve-private-addresses alone
+            fc.prefixes, fc.nets = None, list(ipgen.SPEC_RFC1918)
+        elif shape == 2:    # --preserve-addresses (custom), default prefixes
+            fc.prefixes = None
+            fc.nets = [ipgen.rand_cidr(rng)] if rng.random() < 0.5 else ipgen.same_addr_subnets(rng, None)
+        else:               # custom prefixes, maybe networks
+            if not fc.prefixes:
+                fc.prefixes = ipgen.nested_cidrs(rng)
         salt = fc.salt
         argv = ["-a", "-s", salt]
         hb_given = rng.random() < 0.5
         if hb_given or fc.b4 != 8:
             argv += ["--preserve-host-bits", str(fc.b4)]
-        if fc.prefixes is not None and fc.prefixes:
+        if fc.prefixes:
             argv += ["--preserve-prefixes", ",".join(fc.prefixes)]
-        elif fc.prefixes == []:
+        else:
             fc.prefixes = None
         private = False
         if fc.nets is not None:
@@ -620,7 +646,9 @@ def cli_scope(res, pid, rng, tier):
             for a in (0x0A141E29, 0xAC100901, 0xC0A80164):   # non-mask private addresses
                 items.append((4, a, str(ipaddress.IPv4Address(a)), "ip address {a}"))
         text = "".join(t.format(a=txt) + "\n" for _, _, txt, t in items)
-        status, outs, dumptext = run_cli(argv, {"r1.cfg": text}, want_dump=(pid == "C17"))
+        status, outs, dumptext = run_cli(argv, {"r1.cfg": text}, want_dump=(pid == "C17"), stale_dump=stale)
+        if pid == "C17" and dumptext:
+            stale = dumptext                # the next run finds this run's map at the same path
         res.evaluations += 1
         meta = {"argv": argv, "cfg": fc.describe()}
         if status != "ok" or "r1.cfg" not in outs:
@@ -699,6 +727,77 @@ def cli_scope(res, pid, rng, tier):
                                       address=canon, used=tok, listed=m.get(canon)))
         elif pid == "C17":
             fails.append(dict(meta, kind="dump file not written"))
+    return dis, fails
+
+
+FRESH_SNIPPET = r"""
+import json, sys
+sys.path.insert(0, %r)
+from netconan.ip_anonymization import IpAnonymizer, IpV6Anonymizer
+req = json.load(sys.stdin)
+out = []
+for c in req:
+    if c["fam"] == 4:
+        o = IpAnonymizer(c["salt"], c["prefixes"], c["nets"], preserve_suffix=c["B"])
+    else:
+        o = IpV6Anonymizer(c["salt"], preserve_suffix=c["B"])
+    out.append([(o.deanonymize(v) if c["undo"] else o.anonymize(v)) for v in c["vals"]])
+json.dump(out, sys.stdout)
+"""
+
+
+def fresh_process(reqs):
+    """Answers of newly constructed anonymizers in a brand-new interpreter process."""
+    import json
+    import subprocess
+    import sys
+    from .common import REPO
+    p = subprocess.run([sys.executable, "-c", FRESH_SNIPPET % REPO], input=json.dumps(reqs), capture_output=True,
+                       text=True, timeout=600)
+    if p.returncode != 0:
+        return None, p.stderr[-500:]
+    return json.loads(p.stdout), None
+
+
+def process_history_scope(res, pid, rng, tier):
+    """This process has by now constructed many anonymizers with all kinds of options.  Anonymizers built here
+    *now* must answer exactly like anonymizers built in a fresh process (C03: no dependence on what ran before;
+    C02: undo in a fresh process that has never seen the originals)."""
+    fails, dis = [], []
+    cfgs = []
+    # make sure the history contains anonymizers with preserved networks before default ones are built
+    for nets in (["10.0.0.0/16"], ["44.0.0.0/8", "200.1.0.0/16"], list(ipgen.SPEC_RFC1918)):
+        ipgen.Cfg(4, "hist", 8, None, nets, "md5").build()
+    for i in range(6 if tier == "quick" else 20):
+        c = ipgen.gen_cfg(rng, fam=4 if i % 3 else 6)
+        c.hmode = "md5"
+        if i % 2 == 0:
+            c.prefixes = None        # defaults, as a library user gets them
+        cfgs.append(c)
+    reqs, local = [], []
+    for c in cfgs:
+        addrs = ipgen.gen_addrs(rng, c, 25)
+        o = c.build()
+        ys = [o.anonymize(a) for a in addrs]
+        local.append((c, addrs, ys))
+        base = {"fam": c.fam, "salt": c.salt, "prefixes": c.prefixes, "nets": c.nets, "B": c.B}
+        reqs.append(dict(base, undo=False, vals=addrs))
+        reqs.append(dict(base, undo=True, vals=ys))
+    got, err = fresh_process(reqs)
+    if got is None:
+        dis.append({"op": "fresh interpreter process", "impl": "failed: " + str(err), "model": "ok", "meta": None})
+        return dis, fails
+    for i, (c, addrs, ys) in enumerate(local):
+        fa, fu = got[2 * i], got[2 * i + 1]
+        res.evaluations += 2 * len(addrs)
+        for a, y, y2, x2 in zip(addrs, ys, fa, fu):
+            res.nt(("proc", c.fam, a & 0xFFF))
+            if pid == "C03" and y != y2:
+                fails.append({"kind": "image differs between this process (after other anonymizers were constructed) and a fresh process",
+                              "cfg": c.describe(), "a": a, "image_here": y, "image_fresh_process": y2})
+            if pid == "C02" and x2 != a:
+                fails.append({"kind": "undo in a fresh process does not return the original", "cfg": c.describe(),
+                              "a": a, "image": y, "undo_fresh_process": x2})
     return dis, fails
 
 
